@@ -26,6 +26,14 @@ type regModel struct {
 	excl bool
 	reg  map[string]string          // key -> value, the live registrations seen by the subscriber
 	last map[string]map[string]bool // exclusive: value -> candidate keys "most recently registered with it"
+	show func(key string) string    // optional: how keys are printed
+}
+
+func (m *regModel) keyName(k string) string {
+	if m.show != nil {
+		return m.show(k)
+	}
+	return k
 }
 
 func newRegModel(excl bool) *regModel {
@@ -139,7 +147,7 @@ func (m *regModel) String() string {
 		if i > 0 {
 			b.WriteString(" ")
 		}
-		fmt.Fprintf(&b, "%s=%s", k, m.reg[k])
+		fmt.Fprintf(&b, "%s=%s", m.keyName(k), m.reg[k])
 	}
 	b.WriteString("}")
 	if m.excl {
@@ -153,7 +161,11 @@ func (m *regModel) String() string {
 			if i > 0 {
 				b.WriteString(" ")
 			}
-			fmt.Fprintf(&b, "%s<-%s", v, strings.Join(setList(m.last[v]), "|"))
+			var names []string
+			for _, k := range setList(m.last[v]) {
+				names = append(names, m.keyName(k))
+			}
+			fmt.Fprintf(&b, "%s<-%s", v, strings.Join(names, "|"))
 		}
 		b.WriteString("}")
 	}
